@@ -22,17 +22,17 @@ CLAIMS = {
     "C02": dict(
         module="c02_recomb", design="DESIGN.md §4 C02",
         technique="deterministic simulation: scripted stratified uniform draws at the generator seam (exact 1/N bound) plus fixed-seed real-PRNG runs with explicit error budgets",
-        text="Two modes: stratified scripted draws make realised crossover and segregation frequencies deterministic to within 1/N; real-PRNG designs with 2e5 gametes check adjacent, non-adjacent (Haldane), independence and joint clauses with a stated false-alarm budget (<1e-6 per check run), reproducible per VERIF_SEED.",
+        text="Two modes: stratified scripted draws make realised crossover and segregation frequencies deterministic to within 1/N; real-PRNG designs with 2e5 gametes check adjacent, non-adjacent (Haldane), independence and joint clauses with a stated false-alarm budget (<1e-6 per check run), reproducible per VERIF_SEED. Map-assigned probabilities are judged against values computed by the harness from the map applied last (Haldane or Kosambi, standard or extended map, points coinciding with the markers or sparser, optional earlier mapping, markers handed over in shuffled order); all seven protocols have a read-out.",
         note="Statistical clauses decided at fixed seeds with 6.5-sigma budgets: sensitive to deviations of roughly >=1%."),
     "C03": dict(
         module="c03_labels", design="DESIGN.md §4 C03",
         technique="deterministic simulation: seeded operation histories against an entity-tracking reference model, twin-form comparison, ddmin replay",
-        text="Random histories of structural operations (all labelled axes, specific/generic and mutating/non-mutating forms, many argument forms) on 25 labelled matrix classes plus the three genotyping protocols, executed against an entity-tracking list model; labels, data cells, operand immutability, form equivalence and group-metadata truth are checked after every step.",
+        text="Random histories of structural operations (all labelled axes, specific/generic and mutating/non-mutating forms, many argument forms) on 25 labelled matrix classes plus the three genotyping protocols, executed against an entity-tracking list model; labels, data cells, operand immutability, form equivalence and group-metadata truth are checked after every step; objects a result was derived from are kept and must not change when the derived object is modified in place.",
         note="Operations rejected in every form are recorded, not flagged, provided receiver and operands are unchanged; dims <= 6, <= 12 ops per history."),
     "C06": dict(
         module="c06_optim", design="DESIGN.md §4 C06",
         technique="deterministic simulation: owned entropy/clock world and generator seam around every optimiser, per-generation invariant via wrapped minimize, brute-force reference optimum",
-        text="Every optimiser class that runs here is driven on small generated problems in all four encodings under owned entropy and seeded global streams; feasibility, truthful objective/constraint values, non-domination, problem immutability, brute-force optimality of the sorting optimiser and single-exchange local optimality of hill-climbers are checked.",
+        text="Every optimiser class that runs here is driven on small generated problems (EBV and non-separable optimal-contribution families; candidate sets in any order, partial, or replaced through the setter; bounds re-set through the setters) in all four encodings under owned entropy and seeded global streams; feasibility, truthful objective/constraint values, non-domination, problem immutability, brute-force optimality of the sorting optimiser and single-exchange local optimality of hill-climbers are checked.",
         note="pymoo internals trusted as a component that runs real; ngen <= 4, pop <= 12, candidate sets <= 10."),
     "C07": dict(
         module="c07_select", design="DESIGN.md §4 C07",
@@ -42,17 +42,17 @@ CLAIMS = {
     "C08": dict(
         module="c08_repro", design="DESIGN.md §4 C08",
         technique="deterministic simulation: programs of stochastic API calls replayed across entropy/clock worlds, prefix histories, generator kinds and fresh interpreters; global-state snapshots",
-        text="Programs of stochastic API calls are executed twice after prng.seed(s) under different prior histories, entropy worlds and clocks (and in fresh interpreters with another hash seed); outputs and final global generator states must agree bit for bit. Components given an explicit generator must be a pure function of it and leave both global streams untouched.",
+        text="Programs of stochastic API calls (about 120 catalogue components incl. 17 selection-protocol families and the legacy optimisers) are executed twice after prng.seed(s) under different prior histories (light calls, components related to the program, pre-existing objects that were already used), entropy worlds and clocks (and in fresh interpreters with another hash seed); outputs and final global generator states must agree bit for bit. Components given an explicit generator must be a pure function of it and leave both global streams untouched.",
         note="seed(None) excluded as documented nondeterminism; program length <= 8, GA ngen <= 3."),
     "C10": dict(
         module="c10_limits", design="DESIGN.md §4 C10",
         technique="deterministic simulation: closed breeding histories simulated with the real mating protocols under an owned generator (scripted crossover extremes, bottlenecks), per-generation invariants from an independent allele-level reference",
-        text="Closed breeding programmes are simulated for up to 8 generations with real mating protocols and selection rules at population sizes that include the reciprocal-rounding sizes; at every generation the limits must bracket every GEBV, be monotone, never see a lost allele return, and collapse to the common value at fixation.",
+        text="Closed breeding programmes are simulated for up to 8 generations with real mating protocols and selection rules at population sizes that include the reciprocal-rounding sizes, a family of more than 50 000, and population objects culled or extended in place; at every generation the limits must bracket every GEBV, be monotone, never see a lost allele return, and collapse to the common value at fixation.",
         note="Tolerance 4 eps ploidy sum|u| on bracketing, 2 ulp on monotonicity; <= 110 taxa x 24 markers."),
     "C14": dict(
         module="c14_pheno", design="DESIGN.md §4 C14",
         technique="deterministic simulation: phenotyping protocol under an owned generator recording every normal draw; exact structural oracle plus chi-square budgets on recorded draws",
-        text="G_E_Phenotyping runs on generated populations with drawn environment/replicate layouts and variances (incl. zero); record multiplicity and labels, exact truth at zero variance, additive noise structure, heritability algebra, and mean-phenotype breeding values (alignment, row-order invariance, missing taxa) are checked.",
+        text="G_E_Phenotyping (used directly or through a copy / HDF5 round trip) runs on generated diploid or tetraploid populations with additive or additive+dominance models and drawn environment/replicate layouts and variances (incl. zero); record multiplicity and labels, exact truth at zero variance, additive noise structure, heritability algebra, and mean-phenotype breeding values (alignment, row-order invariance, missing taxa) are checked.",
         note="Variance convergence judged on the recorded draws with 1e-10 tail budgets."),
     "C15": dict(
         module="c15_bvscale", design="DESIGN.md §4 C15",
@@ -72,7 +72,7 @@ CLAIMS = {
     "C20": dict(
         module="c20_loop", design="DESIGN.md §4 C20",
         technique="deterministic simulation: real programme loop driven against simulator-owned collaborators with injected in-place mutation, crash at arbitrary call and restart; reference call automaton",
-        text="The real RecurrentSelectionBreedingProgram drives six simulator-owned collaborators whose behaviour (pure, mutating containers or objects, deleting keys, returning received dicts, stashing references and mutating them in later replicates) and crash schedule are drawn per run; a reference automaton checks call order, time index, hand-over by value, log visibility, replicate freshness after crashes and restarts, and immutability of the stored initial state.",
+        text="The real RecurrentSelectionBreedingProgram, started from real library objects (phased, tetraploid unphased, breeding-value matrices, a model), drives six simulator-owned collaborators whose behaviour (pure, mutating containers or objects, deleting keys, returning received dicts, stashing references and mutating them in later replicates) and crash schedule are drawn per run; a reference automaton checks call order, time index, hand-over by value, log visibility, replicate freshness after crashes and restarts, and immutability of the stored initial state.",
         note="Collaborators are stubs by necessity (abstract in pybrops); nrep, ngen <= 4."),
 }
 
